@@ -210,11 +210,11 @@ def gen_jobs(ck):
         cpu = rng.choice([1, 3, 4, 5, 8, 16])
         jobs.append(dict(c, fam="dyadic", cls="RecVec", gates="vec", table=H.dyadic_table(rng, 2 ** n, size), shots=S, parallel=par, pool="fake", cpu=cpu,
                          plan=rand_plan(rng, S, cpu) if par else None, npseed=rng.randrange(2 ** 31), predraw=rng.choice([0, 0, 2, 4])))
+    # the other process start methods (workers that are not forked from the seeded parent): one small job each in the quick tier
     spawn = []
-    if not q:
-        for S in (1, 3, 16, 33):
-            c = rand_circ(rng)
-            spawn.append(dict(c, fam="par_real", cls="RecBinaryCircuit", gates="draw", shots=S, parallel=True, pool="real", start="spawn", npseed=rng.randrange(2 ** 31), predraw=0))
+    for S, start in (((3, "spawn"), (5, "forkserver")) if q else ((1, "spawn"), (3, "spawn"), (16, "spawn"), (33, "spawn"), (3, "forkserver"), (17, "forkserver"))):
+        c = rand_circ(rng)
+        spawn.append(dict(c, fam="par_real", cls="RecBinaryCircuit", gates="draw", shots=S, parallel=True, pool="real", start=start, npseed=rng.randrange(2 ** 31), predraw=0))
     for j in jobs:
         j.setdefault("start", "fork")
     return jobs, spawn
@@ -358,7 +358,7 @@ def main(argv):
         fam, S, n = job["fam"], job["shots"], len(job["labels"])
         p0 = job.get("predraw", 0)
         key = json.dumps({k: job[k] for k in ("circ", "shots", "npseed", "parallel", "gates") if k in job}, sort_keys=True)
-        ck.count(fam + ("_spawn" if job.get("start") == "spawn" else ""), 1, key=(key, json.dumps(job.get("plan"))) if S > 1 else None,
+        ck.count(fam + ("_" + job["start"] if job.get("start") in ("spawn", "forkserver") else ""), 1, key=(key, json.dumps(job.get("plan"))) if S > 1 else None,
                  sample={"shots": S, "labels": job["labels"], "cpu": job.get("cpu"), "plan": job.get("plan"), "result": str(o.get("res") or o.get("err"))[:100]})
         fail = lambda why: oracle_fail.append(("oracle:" + fam, "%s (shots=%d, parallel=%s, gates=%s, start=%s)" % (why, S, job["parallel"], job["gates"], job.get("start")), {"job": job}))
         if fam != "chunk":
